@@ -3,7 +3,7 @@
 EXTENDS HealingLoops
 CONSTANTS MaxLimit
 HealOut == {"valid", "invalid", "echo", "raise"}
-Pol == {"unique", "repeat", "alt", "marker1", "marker2", "marker3", "marker5", "raise1", "raise3"}
+Pol == {"unique", "repeat", "blank", "alt", "marker1", "marker2", "marker3", "marker5", "raise1", "raise3"}
 Plans == UNION {[kind : {"heal"}, limit : {L}, steps : {0}, thr : {9}, script : [1..(L + 1) -> HealOut]] : L \in 0..MaxLimit}
          \cup UNION {[kind : {"swarm"}, limit : {L}, steps : 0..4, thr : {9, 5, 2}, script : [1..(L + 1) -> Pol]] : L \in 0..(IF MaxLimit > 2 THEN 2 ELSE MaxLimit)}
          \cup UNION {[kind : {"tools"}, limit : {L}, steps : {0}, thr : {9}, script : [1..(L + 1) -> {"tools", "plain"}]] : L \in 0..MaxLimit}
